@@ -249,7 +249,17 @@ struct Dumper {
             r = buf;
         }
         if (fi.el == edge_labeling::MULTI_TERMINAL) return r;
-        if (r == "inf" || r == "z") return r;
+        if (r == "inf" || r == "z") {
+            // the edge to the transparent terminal is normalised: value 0.  Any other value
+            // is the same function behind a different edge (C01/C02), so it is shown.
+            bool zero = true;
+            if (ev.isLong()) zero = (long(ev) == 0);
+            else if (ev.isInt()) zero = (int(ev) == 0);
+            else if (ev.isFloat()) zero = (float(ev) == 0);
+            else if (ev.isDouble()) zero = (double(ev) == 0);
+            if (zero) return r;
+            return evStr(ev) + ":" + r + "!";
+        }
         return evStr(ev) + ":" + r;
     }
     int visit(node_handle p) {
@@ -1349,10 +1359,15 @@ static void cmd_mm(const std::vector<std::string> &tk)
         node_address h = st.M->requestChunk(got);
         MMState::Chunk c;
         c.h = h; c.req = n; c.got = got; c.tag = st.chunks.size()+1; c.live = (h != 0);
-        if (h) for (size_t i=0; i<got; i++) slotSet(st, h, i, sentinel(st, c.tag, i));
+        // every slot of the chunk must be addressable through the manager (C18); slots that
+        // are not are reported and left alone rather than written
+        bool addressable = h && st.M->isValidHandle(h) && st.M->isValidHandle(h + got - 1);
+        if (h && addressable) for (size_t i=0; i<got; i++) slotSet(st, h, i, sentinel(st, c.tag, i));
+        c.got = got;
+        if (!addressable) c.tag = 0;
         st.chunks.push_back(c);
-        snprintf(buf, 256, "mm req id=%lu addr=%lu got=%lu", (unsigned long) st.chunks.size()-1,
-                (unsigned long) h, (unsigned long) got);
+        snprintf(buf, 256, "mm req id=%lu addr=%lu got=%lu addressable=%d", (unsigned long) st.chunks.size()-1,
+                (unsigned long) h, (unsigned long) got, (addressable || !h) ? 1 : 0);
         emit(buf);
     } else if (tk[1] == "rec") {
         size_t id = size_t(atol(tk[3].c_str()));
@@ -1366,6 +1381,7 @@ static void cmd_mm(const std::vector<std::string> &tk)
         for (auto &c : st.chunks) {
             if (!c.live) continue;
             ++live;
+            if (c.tag == 0) continue;       // was never addressable: reported at the request
             for (size_t i=0; i<c.got; i++) {
                 if (slotGet(st, c.h, i) != sentinel(st, c.tag, i)) { ++bad; break; }
             }
